@@ -110,6 +110,9 @@ def class_source(case):
             body[lvl].append(f"    {t['a']} = tunable({lit}{kw})")
     out.extend(body[0] or ["    pass"])
     out.append("class Derived(Base):")
+    for t in case.get("redecl", []):
+        kw = ("" if t["wd"] else ", writeDefault=False") + (f", subtable={t['sub']!r}" if t.get("sub") else "")
+        body[1].append(f"    {t['a']} = tunable({literal(t['kind'], t['default'])}{kw})")
     out.extend(body[1] or ["    pass"])
     return "\n".join(out) + "\n"
 
@@ -202,6 +205,14 @@ def decode(code):
     owner = OWNERS[owner_c]
     case = {"tunables": tun, "owner": owner, "names": ["robot"] if owner == "robot" else NAMES[names_c], "derived": derived and owner != "robot"}
     case["pre"] = []
+    # the derived class may declare a tunable of the base class again (other default, other writeDefault):
+    # the derived instance then follows the re-declaration, the base instance the original
+    case["redecl"] = []
+    if case["derived"] and names_c % 2 == 0:
+        for t in tun:
+            if t["lvl"] == 0 and t["kind"] in ("bool", "int", "float", "str", "a_int", "a_float"):
+                case["redecl"].append({"a": t["a"], "kind": t["kind"], "default": value_for(t["kind"], names_c + 5), "wd": not t["wd"], "sub": t["sub"]})
+                break
     for which, v in pre_c:
         t = tun[which % len(tun)]
         if t["lvl"] == 0:
@@ -298,13 +309,15 @@ class C09(Lab):
                     self.flag(f"C09/{tag}", f"setup_tunables raised {type(e).__name__}: {str(e)[:300]}; case: {case}")
                     return {"nontrivial": False, "classes": ["excluded-known:" + tag]}
             present = {}
+            redecl = {t["a"]: t for t in case.get("redecl", [])}
             for i, o in enumerate(objs):
                 for t in case["tunables"]:
                     if t["lvl"] == 1 and not (case["derived"] and i == 1):
                         continue
-                    key = self.key(case, i, t)
+                    eff = redecl.get(t["a"], t) if (case["derived"] and i == 1) else t
+                    key = self.key(case, i, eff)
                     present[(i, t["a"])] = key
-                    model[key] = t["default"] if (t["wd"] or key not in pre) else pre[key]
+                    model[key] = eff["default"] if (eff["wd"] or key not in pre) else pre[key]
             if len(set(present.values())) != len(present):
                 raise AssertionError("harness: key clash in generated case")
             subs = {key: inst.getTopic(key).genericSubscribe() for key in present.values()}
